@@ -76,6 +76,26 @@ MUTANTS = [
     {"name": "revert-0c527f8-subclass-before-base", "revert": "0c527f8", "props": ["C17"]},
     {"name": "revert-3172241-generator-whole-string-annotation", "revert": "3172241", "props": ["C17"]},
     {"name": "revert-47d4c1c-exact-int-modulo", "revert": "47d4c1c", "props": ["C01"]},
+    {"name": "revert-44ce292-hunt", "revert": "44ce292", "props": ["C02"]},
+    {"name": "revert-155275b-hunt", "revert": "155275b", "props": ["C17", "C10"]},
+    {"name": "revert-54fefb3-hunt", "revert": "54fefb3", "props": ["C06", "C05"]},
+    {"name": "revert-c298dac-hunt", "revert": "c298dac", "props": ["C13"]},
+    {"name": "revert-a07ad16-hunt", "revert": "a07ad16", "props": ["C13"]},
+    {"name": "revert-ff1bb29-hunt", "revert": "ff1bb29", "props": ["C01", "C14", "C12"]},
+    {"name": "revert-cb9c2fb-hunt", "revert": "cb9c2fb", "props": ["C09", "C11", "C18"]},
+    {"name": "revert-e47b5a9-hunt", "revert": "e47b5a9", "props": ["C19", "C01"]},
+    {"name": "revert-204d9f9-hunt", "revert": "204d9f9", "props": ["C05"]},
+    {"name": "revert-a3b8dc8-hunt", "revert": "a3b8dc8", "props": ["C09"]},
+    {"name": "revert-00bfdc4-hunt", "revert": "00bfdc4", "props": ["C12", "C10"]},
+    {"name": "revert-1eae23d-hunt", "revert": "1eae23d", "props": ["C08", "C10"]},
+    {"name": "revert-2ee22c5-hunt", "revert": "2ee22c5", "props": ["C19", "C05", "C08"]},
+    {"name": "revert-6b9de14-hunt", "revert": "6b9de14", "props": ["C05", "C14", "C07", "C11"]},
+    {"name": "revert-ea9da58-hunt", "props": ["C02", "C03"], "edits": [{"file": R, "old": "        if isinstance(value, (int, Decimal)) and not isinstance(value, bool):\n            # exact arithmetic for exact values", "new": "        if False:\n            # exact arithmetic for exact values"}]},
+    {"name": "revert-06fcc67-hunt", "revert": "06fcc67", "props": ["C14"]},
+    {"name": "revert-5c0550f-hunt", "revert": "5c0550f", "props": ["C20", "C17"]},
+    {"name": "revert-3289c83-hunt", "revert": "3289c83", "props": ["C20"]},
+    {"name": "revert-58678a9-hunt", "revert": "58678a9", "props": ["C16"]},
+    {"name": "revert-2e2ecff-hunt", "revert": "2e2ecff", "props": ["C16", "C20"]},
     # ---- C01 ------------------------------------------------------------------------------
     {"name": "c01-seq-first-element-unconverted", "props": ["C01"], "edits": [{"file": R, "old": """                try:
                     result.append(
